@@ -95,19 +95,20 @@ type pView struct {
 }
 
 type pStep struct {
-	Wait  string    `json:"wait,omitempty"`
-	Do    string    `json:"do,omitempty"`
-	Label string    `json:"label,omitempty"`
-	All   bool      `json:"all,omitempty"` // release: open the label for good
-	Name  string    `json:"name,omitempty"`
-	Msg   *pMsgSpec `json:"msg,omitempty"`
-	Bytes []int     `json:"bytes,omitempty"`
-	Us    int       `json:"us,omitempty"`
-	Kind  string    `json:"kind,omitempty"`
-	N     int       `json:"n,omitempty"`
-	Sig   string    `json:"sig,omitempty"`
-	W     int       `json:"w,omitempty"`
-	H     int       `json:"h,omitempty"`
+	Wait   string    `json:"wait,omitempty"`
+	Do     string    `json:"do,omitempty"`
+	Label  string    `json:"label,omitempty"`
+	All    bool      `json:"all,omitempty"`    // release: open the label for good
+	Silent bool      `json:"silent,omitempty"` // winsize: change the size without raising SIGWINCH
+	Name   string    `json:"name,omitempty"`
+	Msg    *pMsgSpec `json:"msg,omitempty"`
+	Bytes  []int     `json:"bytes,omitempty"`
+	Us     int       `json:"us,omitempty"`
+	Kind   string    `json:"kind,omitempty"`
+	N      int       `json:"n,omitempty"`
+	Sig    string    `json:"sig,omitempty"`
+	W      int       `json:"w,omitempty"`
+	H      int       `json:"h,omitempty"`
 }
 
 type pScenario struct {
